@@ -337,13 +337,26 @@ def gen(grammar: str, rnd: random.Random, long_ok: bool = True, big: bool = Fals
     if k < 0.76:
         n = rnd.choice([1, 2, 2, 3, 3, 4, 5, 6, 8, 12])
         return "".join(rnd.choice(TOKENS[grammar]) for _ in range(n)), "tokens"
-    if k < 0.82:
+    if k < 0.785:
         s = VALID[grammar](rnd)
         toks = tokens_of(s) or [""]
         i = rnd.randrange(len(toks))
         op = rnd.choice(OPERATORS[grammar])
         toks.insert(i, op * rnd.choice([2, 2, 3]))
         return "".join(toks), "dup-operator"
+    if k < 0.82:
+        # a window of 1-3 tokens of a valid input repeated many times (+ a tail that makes the match fail late):
+        # the shape on which a nested or overlapping quantifier back-tracks exponentially
+        s = VALID[grammar](rnd)
+        toks = tokens_of(s) or ["1"]
+        span = rnd.choice([1, 2, 2, 3])
+        starts = [n for n in range(len(toks)) if not toks[n].isalnum()] or list(range(len(toks)))
+        i = rnd.choice(starts) if rnd.random() < 0.7 else rnd.randrange(len(toks))
+        win = "".join(toks[i:i + span])
+        rep = win * rnd.choice([12, 30, 60, 200])
+        tail = rnd.choice(["", "x", "!", " ", "\n", ",", ".", "x"])
+        keep = rnd.random() < 0.5
+        return "".join(toks[:i]) + rep + ("".join(toks[i + span:]) if keep else "") + tail, "repeat-window"
     if k < 0.88:
         s = VALID[grammar](rnd)
         toks = tokens_of(s)
